@@ -332,6 +332,25 @@ class Replayer:
         getattr(self, rec[0])(rec)
 
 
+class _Capped:
+    """ctx proxy: after MAXV reported violations further ones are only
+    counted (a broken rule fails thousands of cases)."""
+    MAXV = 40
+
+    def __init__(self, ctx):
+        self._ctx = ctx
+        self.suppressed = 0
+
+    def __getattr__(self, name):
+        return getattr(self._ctx, name)
+
+    def violation(self, signature, what, replay=None):
+        if len(self._ctx.violations) >= self.MAXV:
+            self.suppressed += 1
+            return True
+        return self._ctx.violation(signature, what, replay=replay)
+
+
 def damage_sweep(ctx, tf, menu, workdir):
     """Every damage class x API x position: the result for the undamaged
     lines must be what it is without the damaged line."""
@@ -434,9 +453,10 @@ def main(ctx):
         shutil.rmtree(workdir, ignore_errors=True)
 
 
-def _main(ctx, tf, workdir):
+def _main(real_ctx, tf, workdir):
+    real_ctx.dmg_hits = {}
+    ctx = _Capped(real_ctx)
     quick = ctx.tier == 'quick'
-    ctx.dmg_hits = {}
     runs = plan(ctx)
     results = {}
     with cf.ThreadPoolExecutor(max_workers=6 if quick else 5) as ex:
@@ -484,6 +504,9 @@ def _main(ctx, tf, workdir):
 
     second_opinion(ctx, tf, replayer.second, workdir, 700 if quick else 4000)
 
+    if ctx.suppressed:
+        ctx.notes.append(f'{ctx.suppressed} further violations not written '
+                         f'out (cap {ctx.MAXV})')
     if ctx.dmg_hits:
         ctx.notes.append('damaged-key cases that broke the whole file, per '
                          '(class, api): ' + str(sorted(
@@ -493,8 +516,8 @@ def _main(ctx, tf, workdir):
         ctx.notes.append('option strings rejected with an exception other '
                          'than ValueError (counted as "rejected"): ' +
                          str(replayer.exc_types))
-    ctx.level = 'model_checking'
-    ctx.assumptions += [
+    real_ctx.level = 'model_checking'
+    real_ctx.assumptions += [
         'names over a lower-case alphabet (OpenSSH folds case, asyncssh '
         'matches case-sensitively: constant CaseFold, recorded, not alarmed)',
         'CIDR host patterns are an asyncssh extension in known_hosts; they '
